@@ -470,6 +470,27 @@ def check(src, rep):
     rep.floor("analysed sites", n_sites, 40)
     # ---------------------------------------------------------------- R2 scanner termination
     _scanner(rep, M, src)
+    # regular expressions applied to wire text: no shape that makes the backtracking matcher exponential
+    from sa.regexa import redos_witness
+    n_rx = 0
+    for m_ in src.package_modules():
+        for n_ in ast.walk(src.tree(m_)):
+            if isinstance(n_, ast.Call) and ast.unparse(n_.func).split(".")[-1] in ("compile", "compile_regex", "regex_compile", "match", "fullmatch", "search", "sub", "split", "findall", "finditer") \
+                    and n_.args and ("re" in ast.unparse(n_.func) or "compile" in ast.unparse(n_.func)):
+                try:
+                    pat_ = ce.eval(n_.args[0], {}, m_)
+                except NotConstant:
+                    continue
+                if not isinstance(pat_, str):
+                    continue
+                n_rx += 1
+                wit_ = redos_witness(pat_)
+                if wit_:
+                    rep.violation("R2", f"{m_}", f"regex-backtracking:line{n_.lineno}", f"a regular expression applied to wire text contains {wit_}: matching time grows exponentially with the length of a "
+                                  "non-matching input, so decoding does not terminate in reasonable time for some inputs", src.file(m_), n_.lineno, witness=pat_[:80])
+    rep.count("regular_expressions", n_rx)
+    if n_rx:
+        rep.ok("R2", f"{n_rx} regular expression(s)", "no unbounded repetition nested in an unbounded repetition with overlapping characters / empty-matching body")
     # ---------------------------------------------------------------- R3 grammar termination
     bad = 0
     ng = 0
